@@ -30,69 +30,118 @@ pub struct PrefixResult {
 
 /// Judge one prefix of `full` (length n < full.len()).
 pub fn judge_prefix(full: &[u8], n: usize, case_tag: &str) -> PrefixResult {
-    let len = full.len() as u64;
-    let mut world = World::new();
-    world.put_file(PATH, full[..n].to_vec());
-    world.io_budget = Some(1_000_000);
-    let byte_budget = 64 * len + (1 << 20);
-    let alloc_limit = 16 * full.len() + (1 << 20);
-    alloc::set_case(&format!("{{\"property\":\"C14\",\"case\":\"{case_tag}\",\"prefix\":{n},\"len\":{len}}}"));
+    PrefixJudge::new(full, case_tag).judge(n)
+}
 
-    // 1. container level
-    alloc::arm(alloc_limit);
-    let (res, world) = run_plain(world, || {
-        let mut a = Archive::new_reader();
-        match a.open(PATH) {
-            Ok(()) => {
-                let names = a.get_stream_names();
-                Some(names.len())
-            }
-            Err(_) => None,
+/// Judges prefixes of one archive. The file lives on ONE sim disk and is cut in place, so
+/// enumerating n = len-1, len-2, ... 0 costs no copy per prefix (archives of several 100 KiB are
+/// enumerated completely); a larger n than the current one restores the bytes from `full`.
+pub struct PrefixJudge<'a> {
+    full: &'a [u8],
+    tag: String,
+    world: Option<World>,
+}
+
+impl<'a> PrefixJudge<'a> {
+    pub fn new(full: &'a [u8], case_tag: &str) -> Self {
+        let mut world = World::new();
+        world.put_file(PATH, full.to_vec());
+        PrefixJudge { full, tag: case_tag.to_string(), world: Some(world) }
+    }
+
+    fn cut(world: &mut World, full: &[u8], n: usize) {
+        let f = world.files.get(PATH).expect("crash file").clone();
+        let mut v = f.lock().unwrap();
+        if v.len() >= n {
+            v.truncate(n);
+        } else {
+            *v = full[..n].to_vec();
         }
-    });
-    let max1 = alloc::disarm();
-    let container = match res {
-        Err(p) => Verdict::Panic(p),
-        Ok(None) => Verdict::Refused,
-        Ok(Some(_)) => Verdict::OpenOkNothingReadable,
-    };
-    let container = hang_or(container, &world, byte_budget);
-    let (io1, br1) = (world.io_calls, world.bytes_read);
+        world.io_calls = 0;
+        world.bytes_read = 0;
+        world.io_budget = Some(1_000_000);
+        world.io_budget_tripped = false;
+    }
 
-    // 2. user level
-    let mut world = world;
-    world.io_calls = 0;
-    world.bytes_read = 0;
-    world.io_budget_tripped = false;
-    alloc::arm(alloc_limit);
-    let (res, world) = run_plain(world, || -> Option<String> {
-        match Decompressor::open(PATH, DecompressorConfig { verbosity: 0 }) {
-            Err(_) => None,
-            Ok(mut d) => {
-                let samples = d.list_samples();
-                let mut readable = Vec::new();
-                for s in samples.iter().take(3) {
-                    if let Ok(c) = d.get_sample(s) {
-                        readable.push(format!("{s}:{} contigs", c.len()));
+    pub fn judge(&mut self, n: usize) -> PrefixResult {
+        let full = self.full;
+        let len = full.len() as u64;
+        let byte_budget = 64 * len + (1 << 20);
+        let alloc_limit = 16 * full.len() + (1 << 20);
+        alloc::set_case(&format!("{{\"property\":\"C14\",\"case\":\"{}\",\"prefix\":{n},\"len\":{len}}}", self.tag));
+        let mut world = self.world.take().expect("judge world");
+        Self::cut(&mut world, full, n);
+
+        // 1. container level. If the container accepts the prefix, the handle is walked: reading
+        // its parts must not panic, hang or ask for a garbage-sized buffer either.
+        alloc::arm(alloc_limit);
+        let (res, world) = run_plain(world, || {
+            let mut a = Archive::new_reader();
+            match a.open(PATH) {
+                Ok(()) => {
+                    let names = a.get_stream_names();
+                    let mut parts_read = 0usize;
+                    'walk: for sid in 0..a.get_num_streams() {
+                        let _ = a.get_raw_size(sid);
+                        for pid in 0..a.get_num_parts(sid).min(64) {
+                            let _ = a.get_part_by_id(sid, pid);
+                            parts_read += 1;
+                            if parts_read >= 256 {
+                                break 'walk;
+                            }
+                        }
                     }
+                    Some(names.len())
                 }
-                Some(format!("listed {} samples; extracted {:?}", samples.len(), readable))
+                Err(_) => None,
             }
-        }
-    });
-    let max2 = alloc::disarm();
-    let reader = match res {
-        Err(p) => Verdict::Panic(p),
-        Ok(None) => Verdict::Refused,
-        Ok(Some(d)) => Verdict::Readable(d),
-    };
-    let reader = hang_or(reader, &world, byte_budget);
-    PrefixResult {
-        container,
-        reader,
-        io_calls: io1 + world.io_calls,
-        bytes_read: br1 + world.bytes_read,
-        max_alloc: max1.max(max2),
+        });
+        let max1 = alloc::disarm();
+        let container = match res {
+            Err(p) => Verdict::Panic(p),
+            Ok(None) => Verdict::Refused,
+            Ok(Some(_)) => Verdict::OpenOkNothingReadable,
+        };
+        let container = hang_or(container, &world, byte_budget);
+        let (io1, br1) = (world.io_calls, world.bytes_read);
+
+        // 2. user level
+        let mut world = world;
+        world.io_calls = 0;
+        world.bytes_read = 0;
+        world.io_budget_tripped = false;
+        alloc::arm(alloc_limit);
+        let (res, world) = run_plain(world, || -> Option<String> {
+            match Decompressor::open(PATH, DecompressorConfig { verbosity: 0 }) {
+                Err(_) => None,
+                Ok(mut d) => {
+                    let samples = d.list_samples();
+                    let mut readable = Vec::new();
+                    for s in samples.iter().take(3) {
+                        if let Ok(c) = d.get_sample(s) {
+                            readable.push(format!("{s}:{} contigs", c.len()));
+                        }
+                    }
+                    Some(format!("listed {} samples; extracted {:?}", samples.len(), readable))
+                }
+            }
+        });
+        let max2 = alloc::disarm();
+        let reader = match res {
+            Err(p) => Verdict::Panic(p),
+            Ok(None) => Verdict::Refused,
+            Ok(Some(d)) => Verdict::Readable(d),
+        };
+        let reader = hang_or(reader, &world, byte_budget);
+        let out = PrefixResult {
+            container,
+            reader,
+            io_calls: io1 + world.io_calls,
+            bytes_read: br1 + world.bytes_read,
+            max_alloc: max1.max(max2),
+        };
+        self.world = Some(world);
+        out
     }
 }
 
